@@ -30,6 +30,15 @@ CLAIMED = {
             "Trusts: Coq kernel; extraction + OCaml driver; rt/rt.c + gcc TSan instrumentation; SC interleaving (weak CAS = "
             "strong); -O0 build; guard: fewer than 2^32 simultaneous contenders.",
             "DESIGN.md 6 C18"),
+    "C17": ("Coq inductive invariant (19 clauses) + ghost logs over an access-granularity model; lock-step trace correspondence",
+            "Machine-checked theorems over every reachable state of an executable model of src/work_queue.c with the MPSC push/pop "
+            "inlined (one step per access; any number of pushing threads, any item lists, any schedule): at most one worker between "
+            "START_WORKING and EMPTY, items handed out form a duplicate-free prefix of the pushes in tail-exchange order, EMPTY only "
+            "when every announced item was handed out, an announced item always has a designated worker, only the worker pops. Tied to "
+            "/repo's working tree on every run by per-access trace comparison of the instrumented work_queue.c with the extracted model.",
+            "Trusts: Coq kernel; extraction + OCaml driver; rt/rt.c + gcc TSan instrumentation; SC interleaving; -O0 build; callers follow "
+            "the documented protocol (encoded in the thread programs); pushed items distinct and not the stub; counters below 2^63.",
+            "DESIGN.md 6 C17"),
 }
 
 NOT_YET = "model and proof not built yet in this development (see DESIGN.md 6 for the plan); not claimed until a check exists"
